@@ -176,7 +176,7 @@ theorem pg_skel_push_pop (l : Array LogE) (a : Int) (b : Nat) :
     pg_skel (l.push (.pop a b)).toList = pg_skel l.toList ++ [none] := by
   simp [pg_skel, List.filterMap_append, pg_sk]
 
-theorem pgs_clock {n' dt : Int} {evs : List SEvent} (s s' : SimS) (h : PGS n' [] evs s) (hdt : ¬ dt < 0)
+theorem pgs_clock {n' dt : Int} {evs : List SEvent} (s s' : SimS) (h : PGS n' [] evs s) (_hdt : ¬ dt < 0)
     (hn' : n' = s.now + dt)
     (hg : s'.graphs = s.graphs) (hn : s'.now = s.now + dt) (hl : s'.log = s.log.push (.clock (s.now + dt)))
     (hq : s'.queue = s.queue)
